@@ -44,12 +44,15 @@ TProbePack == Is("ProbePack") /\ phase = "packing" /\ Sees(E) /\ UNCHANGED fvars
 \* leftover side files, or read-only: the index and side files are only caches, so the answer is the same
 TProbeIndex == Is("ProbeIndex") /\ Sees(E) /\ UNCHANGED fvars
 TProbeRO == Is("ProbeRO") /\ Sees(E) /\ E.modified = FALSE /\ E.refused = TRUE /\ UNCHANGED fvars
+\* time travel: the file opened read-only with stop = an earlier tid shows the state as of that transaction, whether
+\* or not an index file is present
+TProbeStop == Is("ProbeStop") /\ E.with_index = TRUE /\ E.without_index = TRUE /\ UNCHANGED fvars
 \* crash probes
 TProbe == Is("Probe") /\ Sees(E) /\ UNCHANGED fvars
 TProbeTorn == Is("ProbeTorn") /\ Sees(E) /\ UNCHANGED fvars
 \* an empty transaction of an empty database etc. need no special case: every call is an event
 
-TNext == TVoteWrite \/ TVoteEnd \/ TFlip \/ TFsync \/ TAck \/ TTruncate \/ TAbortDone \/ TSide \/ TReopen \/ TProbe \/ TProbeTorn \/ TPackBegin \/ TPackSwap \/ TPackEnd \/ TProbePack \/ TProbeIndex \/ TProbeRO
+TNext == TVoteWrite \/ TVoteEnd \/ TFlip \/ TFsync \/ TAck \/ TTruncate \/ TAbortDone \/ TSide \/ TReopen \/ TProbe \/ TProbeTorn \/ TPackBegin \/ TPackSwap \/ TPackEnd \/ TProbePack \/ TProbeIndex \/ TProbeRO \/ TProbeStop
 
 Accepted == l = Len(T) + 1
 Report == (Accepted => PrintT(<<"ACCEPT", t>>)) /\ (IOEnv.TRACE_VERBOSE = "1" => PrintT(<<"AT", t, l>>))
